@@ -315,10 +315,15 @@ class Interp:
                 idx = int(ix.split()[0])
 
             def g(bg=bg, idx=idx):
-                return deref(bg())[idx]
+                b = deref(bg())
+                return b.base[b.start + idx] if isinstance(b, SliceView) else b[idx]
 
             def s_(v, bg=bg, idx=idx):
-                deref(bg())[idx] = v
+                b = deref(bg())
+                if isinstance(b, SliceView):
+                    b.base[b.start + idx] = v
+                else:
+                    b[idx] = v
             return g, s_
         if re.fullmatch(r'_\d+', p):
             def g(p=p):
@@ -538,8 +543,23 @@ class Interp:
             return [self.operand(env, x) for x in split_args(rv[1:-1])]
         m = re.fullmatch(r'\{closure@([^}]*)\}(?: \{ (.*) \})?', rv)
         if m:
-            fields = [self.operand(env, x.split(':', 1)[1]) for x in split_args(m.group(2))] if m.group(2) else []
+            ops = [x.split(':', 1)[1].strip() for x in split_args(m.group(2))] if m.group(2) else []
+            # rustc's MIR printer zips the operands with the names of the captured *variables*; with
+            # precise (per-field) captures there are more operands than names and the tail is not
+            # printed.  The missing operands are the consecutively numbered temporaries that follow.
+            need = self.closure_capture_count(m.group(1))
+            while ops and len(ops) < need:
+                mm = re.fullmatch(r'(move|copy) _(\d+)', ops[-1])
+                nxt = '_%d' % (int(mm.group(2)) + 1) if mm else None
+                if nxt is None or nxt not in env:
+                    raise Untranslatable('closure aggregate printed with fewer operands than captures')
+                ops.append('move ' + nxt)
+            fields = [self.operand(env, x) for x in ops]
             return Closure(m.group(1), fields)
+        m = re.fullmatch(r'&raw (?:const|mut) (?:\(fake\) )?(.+)', rv)
+        if m:
+            g, s_ = self.parse_place(env, m.group(1))    # only used for PtrMetadata (bounds checks)
+            return Ref(g, None)
         m = re.fullmatch(r'&(mut )?(.+)', rv)
         if m:
             g, s_ = self.parse_place(env, m.group(2))
@@ -569,6 +589,37 @@ class Interp:
         if m and not rv.startswith(('copy', 'move', 'const')):
             return Enum(m.group(1))
         return self.operand(env, rv)
+
+    # ---- re-execution mode: one path per run, fresh state per run (sound with mutable state behind references)
+    def choose(self, n):
+        c = self.script[self.pos] if self.pos < len(self.script) else 0
+        self.taken.append((c, n))
+        self.pos += 1
+        return c
+
+    def explore(self, fn, make_args, collect=None, pc=None, max_runs=20000):
+        """all paths of fn, each executed from scratch: make_args() builds fresh arguments (and resets
+        whatever the uninterpreted callees record), collect() snapshots that record after the run.
+        Returns [(path condition, value, snapshot)]"""
+        results, script = [], []
+        self.replay = True
+        try:
+            for _ in range(max_runs):
+                self.script, self.pos, self.taken = list(script), 0, []
+                outs = self.call_fn(fn, make_args(), pc if pc is not None else z3.BoolVal(True))
+                if len(outs) > 1:
+                    raise Untranslatable('re-execution produced more than one path')
+                for pc_, val in outs:
+                    results.append((pc_, val, collect() if collect else None))
+                tr = list(self.taken)
+                while tr and tr[-1][0] + 1 >= tr[-1][1]:
+                    tr.pop()
+                if not tr:
+                    return results
+                script = [c for c, _ in tr[:-1]] + [tr[-1][0] + 1]
+            raise Untranslatable('more than %d paths' % max_runs)
+        finally:
+            self.replay = False
 
     # ---- calls
     def call_fn(self, fn, args, pc, depth=0):
@@ -607,6 +658,54 @@ class Interp:
             if c.endswith('ne'):
                 eq = (not eq) if isinstance(eq, bool) else z3.Not(eq)
             return [(pc, eq)]
+        if re.fullmatch(r'<\w+ as PartialOrd>::partial_cmp', c) and not isinstance(T, BVTheory) and not isinstance(d[0], Enum):
+            # over the reals / integers there is no NaN: always Some
+            a, b = d[0], d[1]
+            return [(z3.And(pc, a < b), Enum('Some', [Enum('Less')])), (z3.And(pc, a == b), Enum('Some', [Enum('Equal')])),
+                    (z3.And(pc, a > b), Enum('Some', [Enum('Greater')]))]
+        m = re.fullmatch(r'Option::<.*>::unwrap_or', c)
+        if m and isinstance(d[0], Enum):
+            return [(pc, d[0].fields[0] if d[0].variant == 'Some' else d[1])]
+        m = re.fullmatch(r'<.* as Iterator>::any::<.*>', c)
+        if m:
+            outs = []
+            for pc0, items, _ in self.drain(d[0], pc, depth):
+                live = [pc0]
+                for x in items:
+                    nxt = []
+                    for pc1 in live:
+                        for pc2, r in self.call_closure(d[1], [deref(x)], pc1, depth):
+                            r = deref(r)
+                            if isinstance(r, bool):
+                                (outs if r else nxt).append((pc2, True) if r else pc2)
+                            else:
+                                outs.append((z3.And(pc2, r), True))
+                                nxt.append(z3.And(pc2, z3.Not(r)))
+                    live = nxt
+                outs += [(p_, False) for p_ in live]
+            return outs
+        m = re.fullmatch(r'<.* as Iterator>::(min_by|max_by)::<.*>', c)
+        if m:
+            outs = []
+            for pc0, items, _ in self.drain(d[0], pc, depth):
+                if not items:
+                    outs.append((pc0, Enum('None')))
+                    continue
+                states = [(pc0, items[0])]
+                for y in items[1:]:
+                    nxt = []
+                    for pc1, x in states:
+                        for pc2, o in self.call_closure(d[1], [Ref(lambda x=x: deref(x)), Ref(lambda y=y: deref(y))], pc1, depth):
+                            o = deref(o)
+                            if not isinstance(o, Enum):
+                                raise Untranslatable('comparator did not return an Ordering')
+                            if m.group(1) == 'min_by':
+                                nxt.append((pc2, y if o.variant == 'Greater' else x))      # std: first minimum wins
+                            else:
+                                nxt.append((pc2, x if o.variant == 'Greater' else y))      # std: last maximum wins
+                    states = nxt
+                outs += [(p_, Enum('Some', [deref(x)])) for p_, x in states]
+            return outs
         m = re.fullmatch(r'<\w+ as Partial(?:Ord|Eq)>::(\w+)', c)
         if m:
             op = {'gt': 'Gt', 'lt': 'Lt', 'ge': 'Ge', 'le': 'Le', 'eq': 'Eq', 'ne': 'Ne'}[m.group(1)]
@@ -721,6 +820,8 @@ class Interp:
             v = d[0]
             if isinstance(v, list) and len(v) == 1 and isinstance(deref(v[0]), list) and c.startswith('geo_types::Multi'):
                 v = deref(v[0])       # Multi* is a tuple struct around a Vec
+            if isinstance(v, SliceView):
+                v = v.items()
             if not isinstance(v, list):
                 raise Untranslatable('iter() over a non-list value')
             return [(pc, SliceIter(v))]
@@ -776,9 +877,9 @@ class Interp:
             if isinstance(e, Enum) and e.variant == 'Some':
                 return [(pc, e.fields[0])]
             raise Untranslatable('expect of ' + repr(e))
-        m = re.fullmatch(r'<.* as Iterator>::(map|flat_map|filter|chain)::<.*>', c)
+        m = re.fullmatch(r'<.* as Iterator>::(map|flat_map|filter_map|filter|chain)::<.*>', c)
         if m:
-            return [(pc, Adaptor(m.group(1), d[0], d[1]))]
+            return [(pc, Adaptor({'filter_map': 'flat_map'}.get(m.group(1), m.group(1)), d[0], d[1]))]
         m = re.fullmatch(r'<.* as Iterator>::(skip|take)', c)
         if m:
             if not isinstance(d[1], int):
@@ -796,7 +897,7 @@ class Interp:
                 outs += states
             return outs
         if re.fullmatch(r'core::slice::<impl \[.*\]>::is_empty', c) or re.fullmatch(r'Vec::<.*>::is_empty', c):
-            v = d[0].items if isinstance(d[0], SliceIter) else d[0]
+            v = d[0].items if isinstance(d[0], SliceIter) else (d[0].items() if isinstance(d[0], SliceView) else d[0])
             if not isinstance(v, list):
                 raise Untranslatable('is_empty of a non-list')
             return [(pc, len(v) == 0)]
@@ -858,6 +959,14 @@ class Interp:
             return False
         parts = [p for p in parts if p is not True]
         return z3.And(parts) if parts else True
+
+    def closure_capture_count(self, loc):
+        for crate in self.mir.text:
+            mm = re.search(r'^fn [^\n(]*\{closure#\d+\}\(_1: &?(?:mut )?\{closure@' + re.escape(loc) + r'\}.*?^\}\n', self.mir.text[crate], re.S | re.M)
+            if mm:
+                idx = [int(x) for x in re.findall(r'\(\*_1\)\.(\d+): ', mm.group(0))] + [int(x) for x in re.findall(r'\(_1\.(\d+): ', mm.group(0))]
+                return max(idx) + 1 if idx else 0
+        return 0
 
     def call_closure(self, clo, args, pc, depth):
         clo = deref(clo)
@@ -955,7 +1064,7 @@ class Interp:
             bb, env, pc = work.pop()
             env = dict(env)
             steps += 1
-            if steps > 5000:
+            if steps > getattr(self, 'max_steps', 5000):
                 raise Untranslatable('too many blocks (loop?) in ' + fn.name)
             for line in fn.blocks[bb]:
                 line = line.rstrip(';')
@@ -1003,10 +1112,14 @@ class Interp:
                         break
                     if not z3.is_bool(v):
                         raise Untranslatable('switchInt on non-bool ' + line)
+                    opts = []
                     for arm in arms:
                         key, t = [x.strip() for x in arm.split(':')]
                         cond = z3.Not(v) if key == '0' else v
-                        work.append((t, env, z3.And(pc, cond)))
+                        opts.append((t, env, z3.And(pc, cond)))
+                    if getattr(self, 'replay', False):
+                        opts = [opts[self.choose(len(opts))]]
+                    work += opts
                     break
                 m = re.fullmatch(r'assert\((!?)(.+?), ".*?".*\) -> \[success: (bb\d+).*\]', line)
                 if m:
@@ -1046,6 +1159,8 @@ class Interp:
                             raise
                         results.append((h.pc, ('halted', h.tag)))
                         break
+                    if getattr(self, 'replay', False) and len(outs) > 1:
+                        outs = [outs[self.choose(len(outs))]]
                     for pc2, val in outs:
                         e2 = dict(env)
                         self.parse_place(e2, dst)[1](val)
